@@ -177,6 +177,12 @@ def deep(req):
 def main():
     if os.environ.get("D42_CHILD_RECURSIONLIMIT"):
         sys.setrecursionlimit(int(os.environ["D42_CHILD_RECURSIONLIMIT"]))
+    if os.environ.get("D42_CHILD_DECIMAL"):
+        import decimal
+        prec, rounding = os.environ["D42_CHILD_DECIMAL"].split(",")
+        decimal.setcontext(decimal.Context(prec=int(prec), rounding=getattr(decimal, rounding)))
+        decimal.DefaultContext.prec = int(prec)
+        decimal.DefaultContext.rounding = getattr(decimal, rounding)
     if os.environ.get("D42_CHILD_CWD"):
         os.chdir(os.environ["D42_CHILD_CWD"])
     jobs = json.load(sys.stdin)          # list of {"seed": repr, "schemas": [...], "repeat": n}
